@@ -43,6 +43,8 @@ func init() {
 			c03DropAfterAck(r)
 			balancerKeepsOwnCopies(r)
 			c17Pack(r)
+			kvPutGrowsStore(r)
+			c06Merge(r)
 		},
 	})
 }
